@@ -601,8 +601,8 @@ def c04_random_seqs(seed, n):
     import random
     rnd = random.Random(seed)
     simple = ["D", "A", "R", "Dy", "Ry", "C", "C1", "S", "Q", "D", "R", "Q", "A", "Dx", "Fr", "G", "Cg",
-              "K", "B", "Sw", "So", "Q", "D"]
-    openers = ["{", "I{", "F{", "L{", "W{", "T{", "T{", "L{", "W{", "Lx{", "Ox{"]
+              "K", "B", "Sw", "So", "Q", "D", "Sr"]
+    openers = ["{", "I{", "F{", "L{", "W{", "T{", "T{", "L{", "W{", "Lx{", "Ox{", "E{"]
 
     def gen(budget, depth):
         out = []
@@ -683,6 +683,7 @@ def c13(ctx):
     cases_, _ = ctx.replay(out, "c13", seeds=(None,) if ctx.quick else (None, ctx.seed))
     form_fuzz(ctx, cases_, "c13")
     scale_family(ctx, "c13", ["longlist", "manyargs", "spreadlit"])
+    planted_errors(ctx, cases_[:: max(1, len(cases_) // 150)], "c13", (None, ctx.seed), plants=SPREAD_PLANTS)
     order_family(ctx, "c13")
     scripts = [s for s in repo_test_scripts()
                if "destruct" in s[0] or "spread" in s[0] or "collect" in s[0] or "params" in s[0]]
@@ -746,6 +747,65 @@ def c01(ctx):
                                         max_stmts=30 if ctx.quick else 40), "c01random")
 
 
+BOUNDARY_PROGRAMS = [
+    # (source, expected stdout or None = a reported error, exit 103): values at the limits of the 64-bit range
+    # and text that is not ASCII at places where the evaluator slices or counts
+    ("print(9223372036854775807 .. -9223372036854775807)\n", "[\n]\n"),
+    ("print(9223372036854775807 .. (-9223372036854775807 - 1))\n", "[\n]\n"),
+    ("print(9223372036854775807 .. -2)\n", "[\n]\n"),
+    ("print(0 .. (-9223372036854775807 - 1))\n", "[\n]\n"),
+    ("print(9223372036854775806 .. 9223372036854775807)\n", "[\n    9223372036854775806,\n]\n"),
+    ("print((-9223372036854775807 - 1) .. -9223372036854775807)\n", "[\n    -9223372036854775808,\n]\n"),
+    ("print(9223372036854775807 .. 9223372036854775807)\n", "[\n]\n"),
+    ("for [i, v] in 9223372036854775805 .. 9223372036854775807 { print([i, v]); }\n",
+     "[\n    0,\n    9223372036854775805,\n]\n[\n    1,\n    9223372036854775806,\n]\n"),
+    ("xs := [1, 2]\nprint(xs[9223372036854775807])\n", None),
+    ("xs := [1, 2]\nprint(xs[-9223372036854775807 - 1])\n", None),
+    ("xs := [1, 2]\nprint(xs[1:9223372036854775807])\n", None),
+    ("xs := [1, 2]\nprint(xs[9223372036854775807:])\n", None),
+    ("xs := [1, 2]\nxs[9223372036854775807] = 1\n", None),
+    ("xs := [1, 2]\nxs[0:9223372036854775807] = [1]\n", None),
+    ("s := \"h\u00e9\"\nprint(s[9223372036854775807:])\n", None),
+    ("prix := \"a\"\nprint($\"total: ${prix\u20ac}\")\n", None),
+    ("print($\"${12\u00e9}\")\n", None),
+    ("print($\"${\u00e9}\")\n", None),
+    ("na\u00efve := 1\n", None),
+    ("x := 1\nprint($\"${x\u00a0+ 1}\")\n", None),
+    ("print($\"\u00e9\u20ac${\"\u00e9\" + \"\u20ac\"}\u00e9\")\n", "\u00e9\u20ac\u00e9\u20ac\u00e9\n"),
+    ("print($\"${\"5\u20ac\" + \" / \" + \"\u20ac5\"}\")\n", "5\u20ac / \u20ac5\n"),
+    ("print((\"\u00e9\"[0:1] + \"\u00e9\"[1:2]) == \"\u00e9\")\n", "true\n"),
+    ("print(\"a\u00e9\"[2:])\n", None),
+]
+
+
+def boundary_programs(ctx, name):
+    """Programs at the limits (64-bit extremes in ranges / indices, non-ASCII text inside slots) on the real
+    interpreter: never a crash; the stated output, or a reported error."""
+    plain = sv.build(False)
+    d = sv.scratch("boundary-" + name)
+    for i, (src, want) in enumerate(BOUNDARY_PROGRAMS):
+        fn = "b%d.sd" % i
+        open(os.path.join(d, fn), "w", encoding="utf-8").write(src)
+        so, se, code = sv.run_seed(plain, fn, d)
+        ctx.evaluations += 1
+        ctx.validated += 1
+        ctx.nontrivial.add("boundary:" + src)
+        cr = sv.crashed(se, code)
+        if cr:
+            ctx.violation("the interpreter crashed (%s) on a boundary program" % cr, script=src,
+                          detail={"stderr": se.decode(errors="replace")[-1500:], "exit": code}, prop="C02")
+        elif want is None:
+            form = sv.stderr_form(se, fn, code)
+            if code != 103 or form:
+                ctx.violation("a boundary program that must be refused was not refused with one diagnostic",
+                              script=src, detail={"stdout": so.decode(errors="replace"),
+                                                  "stderr": se.decode(errors="replace"), "exit": code, "form": form})
+        elif code != 0 or so.decode("utf-8", errors="replace") != want:
+            ctx.violation("a boundary program does not print what it must", script=src,
+                          detail={"expected": want, "stdout": so.decode(errors="replace"),
+                                  "stderr": se.decode(errors="replace"), "exit": code})
+
+
 def c02(ctx):
     nm = 3 if ctx.quick else 40
     ctx.rule = ("12 alias shapes (same container twice, self-containing, inside its comparand, mutual, shared child, "
@@ -759,6 +819,7 @@ def c02(ctx):
     out = ctx.run_model("MC_C02", "C02Params", invariants=["ZeroRule"], props=FRAME_PROPS + ["BuildFresh"])
     ctx.replay(out, "c02", seeds=(None,) if ctx.quick else (None, ctx.seed))
     scale_family(ctx, "c02", ALL_SCALE, seeds=(None,))
+    boundary_programs(ctx, "c02")
     ms = mutants(repo_test_scripts(), ctx.seed, nm)
     corpus_validate(ctx, ms, "c02mutants")
     corpus_validate(ctx, random_scripts(ctx.seed + 17, 200 if ctx.quick else 3000, err_rate=0.06), "c02random")
@@ -913,6 +974,44 @@ def run_mc_lex(ctx, maxlen, alphabet, name, wraps="NoWrap", extra_inv=()):
     return sv.tagged(out, "LEX")
 
 
+def big_texts(ctx):
+    """Long runs of what the scanner skips or accumulates (blank lines, `;`, comment lines, continuation breaks,
+    one very long token): the front end works in a loop, not by recursion per item.  The tokens are known by
+    construction, so the outcome is: both prints run, in order."""
+    plain = sv.build(False)
+    d = sv.scratch("c03big")
+    n = 20000 if ctx.quick else 200000
+    name = "v" * 5000
+    cases = [("blank lines", "print(1)\n" + "\n" * n + "print(2)\n"),
+             ("blank lines crlf", "print(1)\r\n" + "\r\n" * n + "print(2)\r\n"),
+             ("semicolons", "print(1)" + ";" * n + "print(2)\n"),
+             ("comment lines", "print(1)\n" + "# c \u00e9\n" * n + "print(2)\n"),
+             ("spaces", "print(1)\n" + " " * n + "print(2)\n"),
+             ("breaks after an operator", "x := 1 +" + "\n" * n + "1\nprint(1)\nprint(x)\n"),
+             ("breaks after a bracket", "print(" + "\n" * n + "1)\nprint(2)\n"),
+             ("long identifier", "%s := 1\nprint(%s)\nprint(2)\n" % (name, name)),
+             ("long string", "s := \"%s\"\nprint(1)\nprint(s->len() - %d)\n" % ("a\u00e9" * 20000, 60000 - 2)),
+             ("long comment", "print(1) # " + "c" * n + "\nprint(2)\n"),
+             ("many statements", "print(1)\n" + "x := 1;" * 1 + "{ y := 1; }\n" * 3000 + "print(2)\n"),
+             ("long list literal", "xs := [" + "1, " * 5000 + "1]\nprint(1)\nprint(xs[5000] + 1)\n")]
+    for i, (what, text) in enumerate(cases):
+        fn = "g%d.sd" % i
+        open(os.path.join(d, fn), "w", encoding="utf-8").write(text)
+        so, se, code = sv.run_seed(plain, fn, d, timeout=60)
+        ctx.evaluations += 1
+        ctx.validated += 1
+        ctx.nontrivial.add("big:" + what)
+        cr = sv.crashed(se, code)
+        if cr:
+            ctx.violation("the front end crashed (%s) on a long run of %s" % (cr, what), script=text[:300] + " ...",
+                          detail={"stderr": se.decode(errors="replace")[-800:], "exit": code, "length": len(text)},
+                          prop="C03")
+        elif code != 0 or so != b"1\n2\n":
+            ctx.violation("a text with a long run of %s is not run as written" % what, script=text[:300] + " ...",
+                          detail={"stdout": so.decode(errors="replace")[:200], "stderr": se.decode(errors="replace")[:400],
+                                  "exit": code}, prop="C03")
+
+
 def c03(ctx):
     import lexcheck as lx
     ml = 3 if ctx.quick else 4
@@ -963,6 +1062,7 @@ def c03(ctx):
     for t in corpus:
         ctx.nontrivial.add(t)
     int_contexts(ctx, "c03", "C03")
+    big_texts(ctx)
     # non-UTF-8 content and an empty file: read error / success, never a crash
     plain = sv.build(False)
     d = sv.scratch("c03bytes")
@@ -1081,10 +1181,21 @@ PLANTS = [
     ('$"ab$c"', "str", 5, "interpolation slots start with '{', got 'c'"),
     ("99999999999999999999", "int", 0, "'99999999999999999999' is too high for an int"),
     ("9_223_372_036_854_775_808", "int", 0, "'9_223_372_036_854_775_808' is too high for an int"),
+    ('"\\x+4"', "str", 3, "'+' is not a valid hex character"),
+    ('"\\x4-"', "str", 4, "'-' is not a valid hex character"),
+    ("3²", "int", 1, "unexpected '²'"),
+    ("caf\u00e9", "word", 3, "unexpected 'é'"),
+    ("12\u20ac", "int", 2, "unexpected '€'"),
+]
+# a collect marker where only a spread may stand, a spread where nothing may follow (C13)
+SPREAD_PLANTS = [
+    ("idf__(1, ..xs__)", "word", 9, "unexpected '..'"),
+    ("idf__(..xs__)", "word", 6, "unexpected '..'"),
+    ("idf__(xs__.. ..)", "word", 13, "unexpected '..'"),
 ]
 
 
-def planted_errors(ctx, cases, name, seeds):
+def planted_errors(ctx, cases, name, seeds, plants=None):
     """Plants a token that must be rejected at a statement boundary of a generated
     program and requires the diagnostic to point at it (line, column counted in
     characters by the renderer), under several layouts of the preceding text."""
@@ -1092,16 +1203,17 @@ def planted_errors(ctx, cases, name, seeds):
     plain = sv.build(False)
     d = sv.scratch("plant-" + name)
     rnd = random.Random(ctx.seed)
+    plants = plants or PLANTS
     jobs = []
     for i, (key, body, outcome) in enumerate(cases):
         if not body:
             continue
         for si, seed in enumerate(seeds):
-            jobs.append((i, si, seed, key, body, rnd.randrange(len(body) + 1), rnd.randrange(len(PLANTS))))
+            jobs.append((i, si, seed, key, body, rnd.randrange(len(body) + 1), rnd.randrange(len(plants))))
 
     def one(job):
         i, si, seed, key, body, at, pi_ = job
-        text, kind, off, msg = PLANTS[pi_]
+        text, kind, off, msg = plants[pi_]
         planted = list(body[:at]) + [{"t": "raw", "text": text, "kind": kind, "loc": [0, 7, 7]}] + list(body[at:])
         pl = rp.Placed(planted, None if seed is None else (hash((seed, i)) & 0x7fffffff), wild=0.6)
         fn = "s%d_%d.sd" % (i, si)
@@ -1165,8 +1277,9 @@ def c18(ctx):
 POSTFIX_TEXT = {"call": "()", "index": "[0]", "rindex": "[:]", "dot": ".p", "arrow": "->type"}
 
 
-def c08_text(toks):
-    """Token sequence of the specification -> (text, [(token index, column)])."""
+def c08_text(toks, tight=False):
+    """Token sequence of the specification -> (text, [(token index, column)]).  tight: no blank where two
+    tokens stay two tokens without one (`xs[0]-1`, `a+b*c`)."""
     out = ""
     cols = []
     for i, t in enumerate(toks):
@@ -1181,6 +1294,13 @@ def c08_text(toks):
             sep = "" if (i == 0 or prev == "lp" or k == "rp"
                          or (prev == "op" and toks[i - 1]["op"] == "-" and k == "int" and
                              (i == 1 or toks[i - 2]["k"] in ("op", "lp")))) else " "
+            if tight and sep == " ":
+                # a blank is needed only between two symbols that would merge (`- -1` stays, `< -` stays)
+                prev_t = toks[i - 1]
+                prev_sym = prev_t["k"] == "op"
+                cur_sym = k == "op" or (k == "int" and str(t["n"]).startswith("-"))
+                if not (prev_sym and cur_sym):
+                    sep = ""
         out += sep
         cols.append(len(out) + 1)
         out += piece
@@ -1258,6 +1378,49 @@ def c08(ctx):
         evs, so, se, code = sv.dump(hooked, d, fn)
         return sv.ast_of(evs), se
     res = sv.pmap(one, list(range(len(batches))))
+    # the tiers do not depend on where the expression stands or on the blanks around its operators: the same
+    # token sequences written tight and in other hosting positions must give the same tree
+    HOSTS = [("tight", "r%d := %s", lambda st: st["rhs"], True),
+             ("list", "r%d := [%s]", lambda st: st["rhs"]["items"][0]["e"], False),
+             ("arg", "r%d := f(%s)", lambda st: st["rhs"]["args"][0]["e"], True),
+             ("key", "r%d := {%s: 1}", lambda st: st["rhs"]["props"][0]["name"], False),
+             ("value", "r%d := {\"k\": %s}", lambda st: st["rhs"]["props"][0]["value"], True),
+             ("index", "r%d := xs[%s]", lambda st: st["rhs"]["i"], False),
+             ("cond", "r%d := 0; if %s { }", lambda st: st["branches"][0]["cond"], False),
+             ("paren", "r%d := (%s)->type()", lambda st: st["rhs"]["f"]["e"], True)]
+    step = 7 if ctx.quick else 2
+    hcases = [c for c in cases[::step] if not any(t["k"] == "op" and t["op"] == ".." for t in c["toks"])]
+    hb = [hcases[i:i + B] for i in range(0, len(hcases), B)]
+
+    def hosted(job):
+        hi, bi = job
+        name, fmt, get, tight = HOSTS[hi]
+        fn = "h%d_%d.sd" % (hi, bi)
+        with open(os.path.join(d, fn), "w") as f:
+            f.write("\n".join(fmt % (j, c08_text(c["toks"], tight)[0]) for j, c in enumerate(hb[bi])) + "\n")
+        evs, so, se, code = sv.dump(hooked, d, fn)
+        return sv.ast_of(evs), se
+    hjobs = [(hi, bi) for hi in range(len(HOSTS)) for bi in range(len(hb))]
+    for (hi, bi), (ast, se) in zip(hjobs, sv.pmap(hosted, hjobs)):
+        name, fmt, get, tight = HOSTS[hi]
+        sts = [x for x in (ast or []) if not (x.get("t") == "declare" and name == "cond")] if ast else None
+        if ast is None or len(sts) != len(hb[bi]):
+            ctx.violation("the real parser rejected generated expressions in %s position: %s"
+                          % (name, se.decode(errors="replace")[:300]),
+                          script=open(os.path.join(d, "h%d_%d.sd" % (hi, bi))).read()[:4000])
+            continue
+        for j, cse in enumerate(hb[bi]):
+            ctx.evaluations += 1
+            ctx.validated += 1
+            text = fmt % (j, c08_text(cse["toks"], tight)[0])
+            try:
+                got = c08_tree_of_ast(get(sts[j]))
+            except (KeyError, IndexError, TypeError):
+                got = None
+            want = strip_par(cse["tree"])
+            if got != want:
+                ctx.violation("the real parser groups `%s` differently from the specification (%s position)"
+                              % (text, name), script=text + "\n", detail={"spec": want, "impl": got})
     for bi, (ast, se) in enumerate(res):
         batch = batches[bi]
         if ast is None or len(ast) != len(batch):
@@ -1358,10 +1521,19 @@ def nested_arith_obs(ctx, d, plain, njobs3, seed):
     rnd3 = random.Random(seed)
     vals3 = [I64_MAX, I64_MAX - 1, I64_MIN, I64_MIN + 1, 1, -1, 2, -2, 0, 3037000500, -3037000500, 2 ** 62]
     jobs3 = []
+    # every triple over the extremes and +-1, +-2, 0 for the operator pairs where only the grouping decides
+    # between a value and an overflow, written with the right operand parenthesised and without parentheses
+    small = [I64_MAX, I64_MIN, 1, -1, 2, -2, 0]
+    for o1, o2 in (("+", "+"), ("+", "-"), ("-", "+"), ("-", "-"), ("*", "*"), ("+", "*"), ("*", "+")):
+        for a3 in small:
+            for b3 in small:
+                for c3 in small:
+                    jobs3.append((len(jobs3), a3, o1, b3, o2, c3, "r"))
+                    jobs3.append((len(jobs3), a3, o1, b3, o2, c3, "flat" if (a3 + b3 + c3) % 3 else "vars"))
     for i in range(njobs3):
         a3, b3, c3 = (rnd3.choice(vals3) for _ in range(3))
         o1, o2 = rnd3.choice("+-*"), rnd3.choice("+-*")
-        jobs3.append((i, a3, o1, b3, o2, c3, rnd3.choice(["l", "r", "flat", "vars"])))
+        jobs3.append((len(jobs3), a3, o1, b3, o2, c3, rnd3.choice(["l", "r", "flat", "vars"])))
 
     def src3(job):
         i, a3, o1, b3, o2, c3, shape = job
@@ -1446,6 +1618,7 @@ def c06(ctx):
                   progof="ArithProgOf")
     int_contexts(ctx, "c06", "C06")
     scale_family(ctx, "c06", ["range", "chain"])
+    boundary_programs(ctx, "c06")
     # op-assignment = assignment also under shadowing (the target is the binding a read sees)
     outs = ctx.run_model("MC_C06", "C06Params", invariants=["OpAssignIsAssign"], props=FRAME_PROPS + ["ShadowFrame"])
     ctx.replay(outs, "c06-shadow", seeds=(None,) if ctx.quick else (None, ctx.seed))
